@@ -12,33 +12,34 @@
 EXTENDS Integers, Sequences, FiniteSets, TLC, Json
 CONSTANT TraceFile
 Trace == ndJsonDeserialize(TraceFile)
-VARIABLES l, last, nsent, nrecv, ngot, bad
-Init == l = 1 /\ last = <<>> /\ nsent = <<>> /\ nrecv = 0 /\ ngot = <<>> /\ bad = FALSE
+VARIABLES l, last, nsent, nrecv, ngot, bad, nfr
+Init == l = 1 /\ last = <<>> /\ nsent = <<>> /\ nrecv = 0 /\ ngot = <<>> /\ bad = FALSE /\ nfr = 0
+\* commands a request must cause: one per distinct slot of its keys (none for a request the proxy answers itself)
+FragsOf(e) == Cardinality({e.slots[k] : k \in DOMAIN e.slots})
 At(f, k, d) == IF k \in DOMAIN f THEN f[k] ELSE d
 Put(f, k, v) == [x \in DOMAIN f \cup {k} |-> IF x = k THEN v ELSE f[x]]
 Viol(e, code) == PrintT(<<"VIOL", e.tid, "C10", e.c, e.i, code>>)
 Next ==
   /\ l <= Len(Trace)
   /\ LET e == Trace[l] IN
-     CASE e.ev = "begin" -> last' = <<>> /\ nsent' = <<>> /\ nrecv' = 0 /\ ngot' = <<>> /\ bad' = FALSE
-       [] e.ev = "send" -> nsent' = Put(nsent, e.c, e.i) /\ UNCHANGED <<last, nrecv, ngot, bad>>
+     CASE e.ev = "begin" -> last' = <<>> /\ nsent' = <<>> /\ nrecv' = 0 /\ ngot' = <<>> /\ bad' = FALSE /\ nfr' = 0
+       [] e.ev = "send" -> nsent' = Put(nsent, e.c, e.i) /\ nfr' = nfr + FragsOf(e) /\ UNCHANGED <<last, nrecv, ngot, bad>>
        [] e.ev = "recv" /\ e.fid # "" ->
             LET k == <<e.n, e.c>> IN
-            /\ IF e.i <= At(last, k, 0) THEN Viol(e, "node-order") ELSE TRUE
+            /\ IF e.i < At(last, k, 0) THEN Viol(e, "node-order") ELSE TRUE      \* (= : another fragment of the same request)
             /\ IF e.i > At(nsent, e.c, 0) THEN Viol(e, "command-of-no-request") ELSE TRUE
             /\ last' = Put(last, k, IF e.i > At(last, k, 0) THEN e.i ELSE last[k])
-            /\ nrecv' = nrecv + 1 /\ UNCHANGED <<nsent, ngot, bad>>
-       [] e.ev = "recvbad" -> Viol(e, "request-stream-to-node-corrupted") /\ bad' = TRUE /\ UNCHANGED <<last, nsent, nrecv, ngot>>
+            /\ nrecv' = nrecv + 1 /\ UNCHANGED <<nsent, ngot, bad, nfr>>
+       [] e.ev = "recvbad" -> Viol(e, "request-stream-to-node-corrupted") /\ bad' = TRUE /\ UNCHANGED <<last, nsent, nrecv, ngot, nfr>>
        [] e.ev = "got" ->
             /\ IF e.i # At(ngot, e.c, 0) + 1 \/ e.rep.t = "garbage" THEN Viol(e, "replies-out-of-step") ELSE TRUE
-            /\ ngot' = Put(ngot, e.c, e.i) /\ UNCHANGED <<last, nsent, nrecv, bad>>
-       [] e.ev = "dead" -> PrintT(<<"VIOL", e.tid, "DEAD", "", 0, "proxy-died">>) /\ UNCHANGED <<last, nsent, nrecv, ngot, bad>>
+            /\ ngot' = Put(ngot, e.c, e.i) /\ UNCHANGED <<last, nsent, nrecv, bad, nfr>>
+       [] e.ev = "dead" -> PrintT(<<"VIOL", e.tid, "DEAD", "", 0, "proxy-died">>) /\ UNCHANGED <<last, nsent, nrecv, ngot, bad, nfr>>
        [] e.ev = "quiesce" ->
-            LET total == LET RECURSIVE S(_) S(D) == IF D = {} THEN 0 ELSE LET x == CHOOSE y \in D : TRUE IN nsent[x] + S(D \ {x}) IN S(DOMAIN nsent) IN
-            /\ IF nrecv # total THEN Viol(e, "requests-lost-or-duplicated-on-the-way-to-the-node") ELSE TRUE
+            /\ IF nrecv # nfr THEN Viol(e, "requests-lost-or-duplicated-on-the-way-to-the-node") ELSE TRUE
             /\ IF \E c \in DOMAIN nsent : At(ngot, c, 0) # nsent[c] THEN Viol(e, "replies-missing") ELSE TRUE
-            /\ UNCHANGED <<last, nsent, nrecv, ngot, bad>>
-       [] OTHER -> UNCHANGED <<last, nsent, nrecv, ngot, bad>>
+            /\ UNCHANGED <<last, nsent, nrecv, ngot, bad, nfr>>
+       [] OTHER -> UNCHANGED <<last, nsent, nrecv, ngot, bad, nfr>>
   /\ IF l = Len(Trace) THEN PrintT(<<"DONE", l>>) ELSE TRUE
   /\ l' = l + 1
 =============================================================================
